@@ -18,9 +18,92 @@ import (
 // commands are interleaved by the tape.
 
 func init() {
-	register(&PropDef{ID: "C06", Gen: genC06, Judge: judgeLockstep("C06"), Nontrivial: func(sc *Scenario, rr *RunResult) bool {
+	ls, lin := judgeLockstep("C06"), judgeLin("C06")
+	register(&PropDef{ID: "C06", Gen: genC06, Judge: func(sc *Scenario, rr *RunResult, env *core.Env) (string, string) {
+		if c06Concurrent(sc) {
+			rr.Probes["concurrent-deadline-histories"]++
+			return lin(sc, rr, env)
+		}
+		return ls(sc, rr, env)
+	}, Nontrivial: func(sc *Scenario, rr *RunResult) bool {
+		if c06Concurrent(sc) {
+			return rr.Preemptions > 0 && rr.HeldSwitch > 0
+		}
 		return rr.Probes["ops-on-keys-with-deadline"] >= 2 && rr.Faults["clock-advance"] > 0
 	}})
+}
+
+func c06Concurrent(sc *Scenario) bool {
+	return len(sc.Clients) > 0 && sc.Clients[0].Role == "racer"
+}
+
+// genC06Concurrent: several clients attach, replace, condition (NX/XX/GT/LT) and
+// remove the deadline of the same one or two keys at the same time, on a clock
+// that stands (all within one second, deadlines minutes away).  Every command
+// must take effect atomically: the recorded history is checked by porcupine
+// against the reference model, whose state includes the deadline (two concurrent
+// EXPIRE NX have one winner, GT never moves a deadline back, XX never arms a key
+// that was just persisted, a refused command changes nothing).
+func genC06Concurrent(r *core.Rand, sc *Scenario) *Scenario {
+	nk := 1 + r.Intn(2)
+	var keys []string
+	for i := 0; i < nk; i++ {
+		k := "e" + itoa(i)
+		keys = append(keys, k)
+		switch r.Intn(4) {
+		case 0:
+			sc.Knobs.Preload = append(sc.Knobs.Preload, bs("set", k, "init"))
+		case 1:
+			sc.Knobs.Preload = append(sc.Knobs.Preload, bs("set", k, "init", "ex", pick(r, []string{"250", "1000"})))
+		case 2:
+			sc.Knobs.Preload = append(sc.Knobs.Preload, bs("rpush", k, "a", "b"), bs("expire", k, "550"))
+		}
+	}
+	uniq := 0
+	ttls := []string{"100", "400", "700", "1300", "2000"}
+	nc := 2 + r.Intn(3)
+	total := 0
+	for ci := 0; ci < nc; ci++ {
+		p := ClientProg{Name: "c" + itoa(ci), Role: "racer", Pipeline: 1 + r.Intn(2), Chunked: r.Bool(0.1)}
+		n := 1 + r.Intn(5)
+		for i := 0; i < n && total < 16; i++ {
+			k := pick(r, keys)
+			uniq++
+			v := "v" + itoa(ci) + "_" + itoa(uniq)
+			var a []B
+			switch r.Intn(16) {
+			case 0, 1, 2, 3:
+				a = bs("expire", k, pick(r, ttls), pick(r, []string{"nx", "xx", "gt", "lt", "NX", "GT"}))
+			case 4, 5:
+				a = bs("expire", k, pick(r, ttls))
+			case 6:
+				a = bs("persist", k)
+			case 7, 8, 9:
+				a = bs("ttl", k)
+			case 10:
+				a = bs("set", k, v)
+			case 11:
+				a = bs("set", k, v, pick(r, []string{"keepttl", "KEEPTTL"}))
+			case 12:
+				a = pick(r, [][]B{bs("setex", k, pick(r, ttls), v), bs("set", k, v, "ex", pick(r, ttls)), bs("set", k, v, "nx", "ex", pick(r, ttls))})
+			case 13:
+				a = bs("del", k)
+			case 14:
+				a = pick(r, [][]B{bs("get", k), bs("exists", k), bs("type", k)})
+			default:
+				a = bs("expire", k, pick(r, []string{"0", "-1"}), pick(r, []string{"xx", "nx", "gt", "lt"}))
+			}
+			p.Steps = append(p.Steps, Step{Kind: "cmd", Args: a})
+			total++
+		}
+		sc.Clients = append(sc.Clients, p)
+	}
+	audit := []Step{{Kind: "barrier"}}
+	for _, k := range keys {
+		audit = append(audit, Step{Kind: "cmd", Args: bs("exists", k)}, Step{Kind: "cmd", Args: bs("ttl", k)}, Step{Kind: "cmd", Args: bs("type", k)})
+	}
+	sc.Clients = append(sc.Clients, ClientProg{Name: "zaudit", Role: "auditor", Pipeline: 1, Steps: audit})
+	return sc
 }
 
 func (g *lsGen) entry(k string) *refmodel.Entry { return g.m.DBs[0].Keys[k] }
@@ -241,6 +324,10 @@ func genC06(r *core.Rand, env *core.Env, run int) *Scenario {
 	sc.Knobs = Knobs{ShardNum: pick(r, []int{1, 2, 8, 1024}), Databases: 1, YieldRMW: r.Bool(0.3), MaxSteps: 30000,
 		Strategy: pick(r, []int{0, 0, 1, 2, 3}), PreemptPct: pick(r, []int{10, 30, 60})}
 	aim := run%8 == 7
+	if !aim && run%5 == 3 {
+		sc.Knobs.YieldRMW = true
+		return genC06Concurrent(r, sc)
+	}
 	g := newLsGen(r, env, "c0:", 1, aim)
 	g.timeOK = true
 	g.steps = append(g.steps, Step{Kind: "sleep", Sleep: 500 * time.Millisecond})
